@@ -183,12 +183,16 @@ FPS_GRIDS = [1 / 30, 1 / 25, 1001 / 30000, 1001 / 24000, 1 / 24, 1001 / 60000, 0
 
 
 def gen_history(rng, dist, codec=None, audio=None, fast=None, md=None, nv=None, na=None, reorder=None,
-                rejects=0.0, finish="fins", small=True, start=None):
+                rejects=None, finish="fins", small=True, start=None):
     """A mostly-valid A/V history. Returns (cfg string, list of op strings, info dict)."""
     codec = codec or rng.choice(VCODECS)
     audio = audio if audio is not None else rng.choice(AUDIOS)
     fast = rng.randrange(2) if fast is None else fast
     mdd = rand_metadata(rng) if md is None else md
+    if rejects is None:
+        # every property about finished files quantifies over ALL call sequences: a quarter of the
+        # histories carry calls that are refused (and must leave no trace) between the accepted ones
+        rejects = rng.choice([0.0, 0.0, 0.0, 0.12])
     rate = rng.choice([48000, 44100, 8000, 96000, 12345]) if audio != "opus" else 48000
     ch = rng.choice([1, 2, 2, 6])
     cfg = cfg_str(codec=codec, w=rng.choice([640, 1920, 16, 65535]), h=rng.choice([480, 1080, 16]), audio=audio,
@@ -260,6 +264,7 @@ def gen_history(rng, dist, codec=None, audio=None, fast=None, md=None, nv=None, 
     dist["fast=%d" % fast] += 1
     dist["reorder=%d" % (1 if reorder and nv >= 3 else 0)] += 1
     dist["order=" + mode] += 1
+    dist["rejected_calls=%s" % ("some" if rejects else "none")] += 1
     dist["nv=%s" % ("0" if nv == 0 else "1" if nv == 1 else "2-5" if nv <= 5 else "6+")] += 1
     dist["na=%s" % ("0" if na == 0 else "1" if na == 1 else "2-5" if na <= 5 else "6+")] += 1
     return cfg, ops, dict(codec=codec, audio=audio, nv=nv, na=na, fast=fast)
@@ -275,7 +280,9 @@ def gen_bad_op(rng, codec, audio, ts):
     if k == 2:
         return "wv %s %s 0" % (f64bits(-1.0), hx(delta_frame(rng, codec)))
     if k == 3:
-        return "wa %s %s" % (f64bits(ts), hx(b"\x00\x01\x02"))
+        # non-empty but corrupt payload at (or shortly after) the coming frame's time
+        bad = rng.choice([b"\x03", b"\x03\x00", b"\x03\xc0\x01"]) if audio == "opus" else rng.choice([b"\x00\x01\x02", b"\xff\xf1\x50", b"\xff\xf1\x50\x80\x00\x1f\xfc"])
+        return "wa %s %s" % (f64bits(ts + rng.choice([0.0, 0.0, 0.004, 0.02])), hx(bad))
     if k == 4:
         return "wa %s -" % f64bits(ts)
     if k == 5:
@@ -556,8 +563,10 @@ def contract_history(rng, dist, codec, audio, maxlen=12, with_enc=True):
         def ts(base):
             return rng.choice([float("nan"), INF, -INF, -0.0, -1.0, 0.0, base, base, base, base - 0.01, base + 1e-7,
                                base + 1 / 30, base + 0.02, base + 47722.0, base + 47721.8, 1e300, base + 1e-12])
+        vplaus = [True]
         def vframe():
             k = rng.random()
+            vplaus[0] = 0.08 <= k < 0.85
             if k < 0.08:
                 return b"", rng.randrange(2)
             if k < 0.45 or not have_video and k < 0.7:
@@ -568,8 +577,10 @@ def contract_history(rng, dist, codec, audio, maxlen=12, with_enc=True):
                 return bytes(rng.randrange(256) for _ in range(rng.randrange(1, 12))), rng.randrange(2)
             # config without key flag / key flag without config
             return (key_frame(rng, codec), 0) if rng.random() < 0.5 else (delta_frame(rng, codec), 1)
+        plausible = [True]     # whether the last aframe()/vframe() is one the muxer should take
         def aframe():
             k = rng.random()
+            plausible[0] = k >= 0.08 and k < 0.8
             if k < 0.08:
                 return b""
             if k < 0.8:
@@ -580,15 +591,17 @@ def contract_history(rng, dist, codec, audio, maxlen=12, with_enc=True):
         if r < 0.40:
             p = ts(t_v); d, k = vframe()
             ops.append("wv %s %s %d" % (f64bits(p), hx(d), k))
-            if p == p and 0 <= p < 1e9 and d: t_v = max(t_v, p) + 1 / 30; have_video = True
+            if p == p and 0 <= p < 1e9 and d and (vplaus[0] or rng.random() < 0.3): t_v = max(t_v, p) + 1 / 30; have_video = True
         elif r < 0.55:
             dts = ts(t_v); p = rng.choice([dts, dts + 0.1, dts + 1 / 30, ts(t_v)]) if dts == dts else ts(t_v); d, k = vframe()
             ops.append("wvd %s %s %s %d" % (f64bits(p), f64bits(dts), hx(d), k))
-            if dts == dts and 0 <= dts < 1e9 and d: t_v = max(t_v, dts) + 1 / 30; have_video = True
+            if dts == dts and 0 <= dts < 1e9 and d and (vplaus[0] or rng.random() < 0.3): t_v = max(t_v, dts) + 1 / 30; have_video = True
         elif r < 0.80:
             p = ts(t_a)
             ops.append("wa %s %s" % (f64bits(p), hx(aframe())))
-            if p == p and 0 <= p < 1e9: t_a = max(t_a, p) + rng.choice([0.0, 0.02])
+            # the plausible next time moves on only when the frame was one the muxer should take (a refused
+            # frame with a later timestamp must not move the muxer's own notion of "previous" either)
+            if p == p and 0 <= p < 1e9 and (plausible[0] or rng.random() < 0.2): t_a = max(t_a, p) + rng.choice([0.0, 0.02])
         elif r < 0.86 and with_enc:
             d, k = vframe()
             if d and not (codec in ("h264", "h265") and (d.endswith(SC3) or SC3 + SC3[:3] in d)):
@@ -1165,6 +1178,26 @@ def gen_C12(rng, tier, dist):
         n = rng.choice([5, 17, 100, 4096]) if rng.random() < 0.5 else rng.randrange(0, 64)
         out.append("X %s %s" % (fn, hx(bytes(rng.choice([0, 0, 1, 0xFF, rng.randrange(256)]) for _ in range(n)))))
     # leb128 / obu sizes with extreme values
+    # sizes whose sum with the header length or the iterator position leaves 64 bits, with every header kind
+    td = bytes([0x12, 0x00])                                   # a temporal delimiter in front: position > 0
+    for v in [2 ** 64 - 1, 2 ** 64 - 2, 2 ** 64 - 3, 2 ** 64 - 12, 2 ** 63 - 1, 2 ** 70 - 1, 2 ** 56, 2 ** 49 - 1]:
+        x = v
+        enc = bytearray()
+        while True:
+            b = x & 0x7F; x >>= 7
+            enc.append(b | (0x80 if x else 0))
+            if not x:
+                break
+        e = bytes(enc)
+        out.append("X leb128 %s" % hx(e))
+        for hb in (0x0A, 0x32, 0x2A, 0x0E):                    # seq header / frame / frame header, with/without extension
+            hdr = bytes([hb]) + (b"\x00" if hb & 4 else b"")
+            for pre in (b"", td):
+                blob = pre + hdr + e + bytes(6)
+                for fn in ("obu_header", "obus", "extract_av1", "is_av1_key"):
+                    out.append("X %s %s" % (fn, hx(blob if fn != "obu_header" else hdr + e + bytes(6))))
+                out.append(pcase(cfg_str(codec="av1"), ["wv %s %s 1" % (f64bits(0.0), hx(blob)), "fins"]))
+        dist["leb128_extreme"] += 1
     for v in [0, 127, 128, 2 ** 32, 2 ** 56 - 1, 2 ** 63]:
         enc = bytearray()
         x = v
@@ -1251,9 +1284,14 @@ def gen_C17(rng, tier, dist):
     for _ in range(n):
         cfg, ops, info = gen_history(rng, dist, rejects=0.05, finish=rng.choice(["fin", "fins", "finish", "finishs", "flush"]))
         g += 1
-        for variant in ["", "sinkty=vec", "sinkty=cursor", "sinkty=file", "path=set"]:
+        # "a different sink type" includes sinks that use the freedom of the io::Write contract:
+        # short writes and Interrupted (never an error, never Ok(0)) must not change a byte or a reply
+        short = ["sink=cap:%d" % rng.choice([1, 2, 7, 64]),
+                 "sink=cap:%d+intr:%s" % (rng.choice([1, 5, 4096]), ",".join(str(rng.randrange(0, 1500)) for _ in range(4)))]
+        for variant in ["", "sinkty=vec", "sinkty=cursor", "sinkty=file", "path=set"] + short:
             out.append(pcase(cfg + " grp=%d" % g + (" " + variant if variant else ""), ops))
-        dist["variants"] += 5
+        dist["variants"] += 7
+        dist["short_write_sinks"] += 2
     # convenience vs explicit: encode_video/encode_audio with accumulated f64 time == write at that time
     for _ in range(80 if tier == "quick" else 5000):
         codec = rng.choice(VCODECS)
